@@ -950,10 +950,15 @@ func (s *Stream) upgrade(uri *url.URL, stream sonic.Stream, headers []Header) er
 		return err
 	}
 
+	// The response can arrive in several segments: read until the blank line that ends the header section.
 	s.handshakeBuffer = s.handshakeBuffer[:cap(s.handshakeBuffer)]
-	n, err := stream.Read(s.handshakeBuffer)
-	if err != nil {
-		return err
+	n := 0
+	for n < len(s.handshakeBuffer) && !bytes.Contains(s.handshakeBuffer[:n], []byte("\r\n\r\n")) {
+		nn, err := stream.Read(s.handshakeBuffer[n:])
+		if err != nil {
+			return err
+		}
+		n += nn
 	}
 	s.handshakeBuffer = s.handshakeBuffer[:n]
 	rd := bytes.NewReader(s.handshakeBuffer)
